@@ -362,10 +362,11 @@ package activitypub
 // bytes written so far decode to; (rawsafe k) says that s[k] may stand unescaped inside a JSON string
 // (0x20..0x7f except quote and backslash, or a byte of a valid UTF-8 sequence); (jsonString e s) says that
 // what was appended to e is one JSON string literal that decodes to s, each byte at which utf8.DecodeRune
-// reports an invalid encoding replaced by U+FFFD.
+// reports an invalid encoding replaced by U+FFFD; (boundary k) says that k is a rune boundary of the
+// sequential UTF-8 decoding of s.
 //@ func stringBytes
 //@ ensures (jsonString e s)
 //@ loop 0
-//@   invariant (and (<= 0 start) (<= start i) (<= i (len s)) (= consumed start))
+//@   invariant (and (<= 0 start) (<= start i) (<= i (len s)) (= consumed start) (boundary i))
 //@   invariant (forall (k) (=> (and (<= start k) (< k i)) (rawsafe k)))
 //@   decreases (- (len s) i)
